@@ -82,7 +82,7 @@ Proof.
   replace (N.pred (n + 1)) with n by lia. reflexivity.
 Qed.
 
-Section Proofs.
+Section Facts.
   Variable K : rs_consts.
 
   Lemma inc_le : forall x, inc K x <= x + 1.
@@ -228,7 +228,7 @@ Section Proofs.
 
   Lemma in_chirp_start : forall h, pre_chirp h -> in_chirp h.
   Proof. intros h H. exists [], h. split; [reflexivity|]. split; [constructor | exact H]. Qed.
-End Proofs.
+End Facts.
 
 (* ------------------------------------------------------------------------------------------ *)
 (* The register invariant                                                                      *)
@@ -236,7 +236,7 @@ End Proofs.
 Ltac fields := cbn [fsm timer lst vp was_hs tddis speed opmode term] in *.
 Ltac split_ifs := repeat match goal with |- context [if ?b then _ else _] => destruct b eqn:? end.
 
-Section Inv.
+Section Regs.
   Variable K : rs_consts.
   Notation mkcyc := (mkcyc K).
 
@@ -261,12 +261,12 @@ Section Inv.
     destruct f; cbn [rs_next fsm timer lst vp was_hs tddis speed opmode term]; split_ifs; fields;
       try (destruct sp, op, tm; cbn in *; intuition congruence).
   Qed.
-End Inv.
+End Regs.
 
 (* ------------------------------------------------------------------------------------------ *)
 (* The history invariant                                                                       *)
 
-Section Inv.
+Section InvDefs.
   Variable K : rs_consts.
   Notation mkcyc := (mkcyc K).
 
@@ -344,13 +344,13 @@ Section Inv.
         rewrite streak_cons, idle_mk. fields. destruct (bus_idle sp (i_line i)); [|lia].
         pose proof (inc_le K l). lia.
   Qed.
-End Inv.
+End InvDefs.
 
 
 Ltac start_state :=
   unfold state_inv, regs_ok in *; fields; cbn [rs_next fsm timer lst vp was_hs tddis speed opmode term].
 
-Section Inv.
+Section InvStatesA.
   Variable K : rs_consts.
   Notation mkcyc := (mkcyc K).
   Notation state_inv := (state_inv K).
@@ -474,11 +474,11 @@ Section Inv.
         * pose proof (inc_le K l). lia.
     - rewrite andb_false_r. cbn [andb]. split; [exact Hv|]. apply hsk_wait; [|exact HR]. eapply hsk_in_abort. exact Hh.
   Qed.
-End Inv.
+End InvStatesA.
 
 
 
-Section Inv.
+Section InvStatesB.
   Variable K : rs_consts.
   Notation mkcyc := (mkcyc K).
   Notation state_inv := (state_inv K).
@@ -575,7 +575,7 @@ Section Inv.
     - apply state_SUSP; assumption.
     - apply state_DISC; assumption.
   Qed.
-End Inv.
+End InvStatesB.
 
 
 Ltac brute f sp op tm :=
@@ -584,7 +584,7 @@ Ltac brute f sp op tm :=
   repeat match goal with H : context [if ?b then _ else _] |- _ => destruct b eqn:? end; fields;
   try (destruct sp, op, tm; cbn in *; intuition congruence).
 
-Section Inv.
+Section InvStep.
   Variable K : rs_consts.
   Notation mkcyc := (mkcyc K).
   Notation state_inv := (state_inv K).
@@ -629,7 +629,7 @@ Section Inv.
     - intros H1 H2. unfold head_chirp in H2. rewrite chirpmode_mk in H2.
       apply r_chirp_exit; assumption.
   Qed.
-End Inv.
+End InvStep.
 
 
 Section Rules.
